@@ -26,6 +26,19 @@ Theorem C19m_note_new_null_frame : forall w t par dl rest,
   sem (get w' t) = sem (get w t) /\ tw (get w' t) = tw (get w t).
 Proof. exact new_fail_frame. Qed.
 
+(* the same step as it occurs in runs: the thread is idle and nsync_note_new (par, dl) is its next call (the frame W1 of the theorem
+   above exists only inside a step); a parent named by the call must have been allocated *)
+Theorem C19m_note_new_null_real_step : forall w t par dl r,
+  stack (get w t) = [] -> prog (get w t) = ONew par dl :: r ->
+  (match par with Some p => (p < nnext w)%nat | None => True end) ->
+  let w' := fst (step w t true) in
+  snd (step w t true) = EvMalloc None /\ notes w' = notes w /\ nnext w' = nnext w /\ clock w' = clock w /\ nthr w' = nthr w /\
+  (forall u, u <> t -> thr w' u = thr w u) /\ freed (gh w') = freed (gh w) /\ notify_called (gh w') = notify_called (gh w) /\
+  seen (gh w') = seen (gh w) /\ obs (gh w') = obs (gh w) /\ crashed (gh w') = crashed (gh w) /\
+  hist (get w' t) = (ONew par dl, RNote None) :: hist (get w t) /\ prog (get w' t) = r /\ stack (get w' t) = [] /\
+  sem (get w' t) = sem (get w t) /\ tw (get w' t) = tw (get w t).
+Proof. exact real_fail_frame. Qed.
+
 (* the footprint the lock-step replay compares with the notes the real code touches is empty for that step *)
 Theorem C19m_note_new_null_touches_nothing : forall w t par dl rest,
   stack (get w t) = ANew par dl W1 :: rest -> touches w t = [].
@@ -44,5 +57,5 @@ Example C19m_example_fail_then_usable :
     [RNote (Some 0%nat); RNote None; RNote (Some 1%nat); RNone; RBool true] /\ broken (gh w) = false /\ crashed (gh w) = false.
 Proof. exact example_fail_then_usable. Qed.
 
-Print Assumptions C19m_note_new_null_frame. Print Assumptions C19m_note_new_null_touches_nothing.
+Print Assumptions C19m_note_new_null_frame. Print Assumptions C19m_note_new_null_real_step. Print Assumptions C19m_note_new_null_touches_nothing.
 Print Assumptions C19m_note_new_ok_continues. Print Assumptions C19m_example_fail_then_usable.
